@@ -9,7 +9,7 @@
    exit code at any point).  `None` = the schedule ended before the call
    returned; `Some (Done r)` = it returned r; `Some (Fail e)` = it raised. *)
 From Coq Require Import ZArith List Bool Arith Lia Permutation.
-From Sky Require Import Result G_parallel M_Parallel P_Parallel P_ParallelLoud P_ParallelTop P_ParallelPerm.
+From Sky Require Import Result G_parallel M_Parallel P_Parallel P_ParallelLoud P_ParallelTop P_ParallelPerm P_ParallelFair.
 Import ListNotations.
 Local Open Scope nat_scope.
 
@@ -175,6 +175,132 @@ Theorem C09_fixed_on_b :
 Proof. exact fixed_on_b. Qed.
 Print Assumptions C09_fixed_on_b.
 
+(* FAIR SCHEDULES.  The hypothesis "every child has ended" of C09_loud follows
+   from a condition on the schedule alone: every child process either is run to
+   the end of its program (result record, end marker, regular end - possible
+   when none of its tasks raises) or dies / is killed at some point (exception,
+   signal, an external watchdog).  After such a schedule and poll_bound master
+   steps the call is over, with the complete list or an error. *)
+Theorem C09_fair_loud_gather : forall (R : Type) (np : nat) (wres : nat -> res (list R))
+    (r0 : list R) (s1 s2 : list action) (w : world) (m : mst),
+  (forall p, 1 <= p <= np ->
+     ((exists r, wres p = Ok r) /\
+      subseq [Worker p APutResult; Worker p APutEnd; Worker p AExit0] s1) \/
+     (exists c, In (Worker p (ADie c)) s1)) ->
+  exec np wres s1 (init r0) = Run w m ->
+  poll_bound np w <= n_master s2 ->
+  exists o, exec np wres (s1 ++ s2) (init r0) = Fin o /\
+    (forall r, o = Done r ->
+       exists rs, Forall2 (fun p x => wres p = Ok x) (seq 1 np) rs /\ r = r0 ++ concat rs).
+Proof. exact @fair_loud. Qed.
+Print Assumptions C09_fair_loud_gather.
+
+Theorem C09_fair_loud : forall (A R : Type) (f : A -> res R) (args : list A) (ncpu : Z)
+    (s1 s2 : list action) (r0 : list R) (w : world) (m : mst),
+  args <> [] -> (1 < ncpu)%Z ->
+  mapM f (chunk args (Z.to_nat ncpu) 0) = Ok r0 ->
+  exec (Z.to_nat ncpu - 1) (fun pid => mapM f (chunk args (Z.to_nat ncpu) pid)) s1 (init r0)
+    = Run w m ->
+  fair (Z.to_nat ncpu - 1) (fun pid => mapM f (chunk args (Z.to_nat ncpu) pid)) s1 ->
+  poll_bound (Z.to_nat ncpu - 1) w <= n_master s2 ->
+  exists o, parallelize f args ncpu (s1 ++ s2) = Some o /\
+            (forall r, o = Done r -> mapM f args = Ok r).
+Proof. exact @parallelize_fair_loud. Qed.
+Print Assumptions C09_fair_loud.
+
+(* a fair schedule leaves no child running *)
+Theorem C09_fair_quiescent : forall (R : Type) (np : nat) (wres : nat -> res (list R))
+    (r0 : list R) (sched : list action) (w : world) (m : mst),
+  fair np wres sched -> exec np wres sched (init r0) = Run w m ->
+  forall p, 1 <= p <= np -> exitc (wks w p) <> None.
+Proof. exact @fair_quiescent. Qed.
+Print Assumptions C09_fair_quiescent.
+
+(* WORKER SIDE.  A worker one of whose tasks raised never has a result record:
+   not in the result queue, not in pid_result_list_map, in no reachable state. *)
+Theorem C09_raising_worker_no_result : forall (R : Type) (np : nat) (wres : nat -> res (list R))
+    (r0 : list R) (sched : list action) (w : world) (m : mst) (p : nat) (e : err),
+  exec np wres sched (init r0) = Run w m -> 1 <= p -> wres p = Err e ->
+  ~ In p (map fst (rq w)) /\ ~ In p (map fst (pmap m)).
+Proof. exact @raising_worker_no_result. Qed.
+Print Assumptions C09_raising_worker_no_result.
+
+(* STATEMENT ORDER of the code, as read by the translator from the current
+   source: all_procs_ended before rqueue.get; exit codes before the all-ended
+   test; pid_proc_ended before the log get; task loop and rqueue.put consecutive
+   statements of worker_wrapper (not a `finally`); the worker does not wait for
+   its status queue (fix 10bab65).  The model steps are instantiated with these
+   facts (mstep = mstep_gen ..., wstep = wstep_gen ...). *)
+Theorem C09_order_facts :
+  par_ord_ended_before_get = true /\ par_ord_died_before_all_ended = true /\
+  par_ord_ended_before_log_get = true /\ par_ord_tasks_before_result = true /\
+  par_ord_status_nonblocking = true.
+Proof.
+  exact (conj K_par_ord_ended_before_get (conj K_par_ord_died_before_all_ended
+        (conj K_par_ord_ended_before_log_get (conj K_par_ord_tasks_before_result
+         K_par_ord_status_nonblocking)))).
+Qed.
+Print Assumptions C09_order_facts.
+
+(* ... and each of them is needed.  all_procs_ended read AFTER the failed get:
+   a fault-free run raises (the worker delivers and ends in between) *)
+Theorem C09_read_order_refuted :
+  fault_free sched_late_flag /\
+  exec_gen 1 wres2 false true true true true sched_late_flag (init [0]) = Fin (Fail MissingResult) /\
+  exists r, exec 1 wres2 (sched_late_flag ++ repeat Master 8) (init [0]) = Fin (Done r).
+Proof. exact late_flag_refuted. Qed.
+Print Assumptions C09_read_order_refuted.
+
+Theorem C09_log_read_order_refuted :
+  fault_free sched_late_log_flag /\
+  exec_gen 1 wres2 true true false true true sched_late_log_flag (init [0]) = Fin (Fail LogIncomplete) /\
+  exists r, exec 1 wres2 (sched_late_log_flag ++ repeat Master 8) (init [0]) = Fin (Done r).
+Proof. exact late_log_flag_refuted. Qed.
+Print Assumptions C09_log_read_order_refuted.
+
+(* result record put in a `finally` block: a partial list is returned *)
+Theorem C09_finally_refuted :
+  exec_gen 1 wres_raise true true true false true sched_finally (init [0]) = Fin (Done [0]) /\
+  exec 1 wres_raise sched_finally (init [0]) = Fin (Fail ChildDied).
+Proof. exact finally_refuted. Qed.
+Print Assumptions C09_finally_refuted.
+
+(* the worker waits for its status queue at its end (code before fix 10bab65,
+   interactive session): after the complete worker program the master stays in
+   proc.join() for ever; with the fix the call returns *)
+Theorem C09_status_block_refuted : forall n,
+  exists w m,
+    exec_gen 1 wres2 true true true true false (sched_status_block ++ repeat Master n) (init [0]) = Run w m /\
+    ph m = Join /\ exitc (wks w 1) = None.
+Proof. exact status_block_refuted. Qed.
+Print Assumptions C09_status_block_refuted.
+
+Theorem C09_status_fixed :
+  exec 1 wres2 sched_status_block (init [0]) = Fin (Done [0; 1]).
+Proof. exact status_fixed. Qed.
+Print Assumptions C09_status_fixed.
+
+(* SEEDS.  The RandomStateService of worker p is seeded with the p-th number
+   drawn from the given rss (ncpu - 1 draws, in pid order), the master goes on
+   with the rss after these draws; parallelize makes exactly one kind of random
+   request, to rss.random, and none to the global numpy generator. *)
+Theorem C09_seed_child : forall (St : Type) (draw : St -> Z * St) (mk : Z -> St) (s0 : St)
+    (ncpu : Z) (p : nat),
+  (Z.of_nat (S p) < ncpu)%Z ->
+  exists d, nth_error (fst (draws St draw (Z.to_nat (ncpu - 1)) s0)) p = Some d /\
+            rss_of St draw mk s0 ncpu (S p) = mk d.
+Proof. exact @rss_of_child. Qed.
+Print Assumptions C09_seed_child.
+
+Theorem C09_seed_master : forall (St : Type) (draw : St -> Z * St) (mk : Z -> St) (s0 : St) (ncpu : Z),
+  rss_of St draw mk s0 ncpu 0 = snd (draws St draw (Z.to_nat (ncpu - 1)) s0).
+Proof. exact @rss_of_master. Qed.
+Print Assumptions C09_seed_master.
+
+Theorem C09_rng_requests : par_n_global_rng_calls = 0%Z /\ par_n_rss_requests = 1%Z.
+Proof. exact rng_requests. Qed.
+Print Assumptions C09_rng_requests.
+
 (* ---- non-vacuity ---- *)
 
 (* 7 tasks, 3 processes, worker 2 delivers before worker 1, polls interleaved *)
@@ -213,3 +339,14 @@ Example C09_ex_died :
      ++ repeat Master 23)
   = Some (Fail ChildDied).
 Proof. vm_compute. reflexivity. Qed.
+
+(* a fair schedule: worker 1 is killed by a watchdog, worker 2 runs its program *)
+Example C09_ex_fair :
+  fair 2 (fun pid => mapM (fun x => Ok x) (chunk [1; 2; 3]%Z 3 pid))
+       [Worker 2 APutResult; Master; Worker 1 (ADie (-9)%Z); Worker 2 APutEnd; Master; Worker 2 AExit0].
+Proof.
+  intros p Hp. assert (Hc : p = 1 \/ p = 2) by lia. destruct Hc as [->| ->].
+  - right. exists (-9)%Z. cbn. auto.
+  - left. split; [eexists; vm_compute; reflexivity|].
+    apply sub_take, sub_skip, sub_skip, sub_take, sub_skip, sub_take, sub_nil.
+Qed.
